@@ -35,9 +35,14 @@ def run_schedule(sched, var, watch0, rand):
                                        REPETITIONS_MAX=v["reps"], REPETITIONS_BASE_DELAY=v["base"], FIND_TTL=FIND_TTL),
                      rand=list(rand))
     d = st.prot.discovery
-    lst = sdenv.ClientL(st.rec, "L1")
-    for f in watch0:
-        d.watch_service(sdenv.service(f), lst)
+    if isinstance(watch0, dict):            # {listener: [filters]}  (Mode 2: the registrations of the configuration)
+        for l, fs in watch0.items():
+            for f in fs:
+                d.watch_service(sdenv.service(f), sdenv.ClientL(st.rec, l))
+    else:
+        lst = sdenv.ClientL(st.rec, "L1")
+        for f in watch0:
+            d.watch_service(sdenv.service(f), lst)
 
     def do(inp):
         ev = {k: x for k, x in inp.items() if k not in ("t", "j")}
@@ -132,6 +137,12 @@ def check(ctx):
     m1.caught("SwFindAll", "C13_quick.cfg")
     traces = traces_for(ctx.seed, ctx.pick(400, 6000), ctx.pick(8, 12))
     bad, ms = judge(ctx, "Mon_C13", traces, "find-task histories", payload)
+    from .common import spec_to_code
+    cfgA = dict(VARIANTS["A"], findTTL=FIND_TTL, watch0=["F1", "F3"], svcs=SVCS, match={"F1": ["s1", "s2"], "F3": ["s3"]})
+    sim = spec_to_code(ctx, {"Inputs": "C13_Inputs", "Match": "C13_Match", "Cfg": "[C13_A EXCEPT !.maxId = 65535]", "Sw": "AllOff",
+                             "MaxEv": 6, "MaxIdle": 3, "MaxPerPoll": 2},
+                       ctx.pick(25, 400), 90, lambda sched, rands: run_schedule(sched, "A", {"L1": ["F1"], "L2": ["F3"]}, list(rands) + [0] * 5),
+                       "Mon_C13", cfgA)
     groups = {}
     for tr in traces[: ctx.pick(120, 1000)]:
         if all(i["op"] != "watch" or True for i in tr["sched"]):
@@ -142,7 +153,7 @@ def check(ctx):
         acc += a
         total += t
     cov = dict(states=m1.states, transitions=m1.trans, traces_validated_against_impl=acc, monitor_traces=len(traces),
-               monitor_failures=bad, monitor_states=ms, conformance_traces=total, spec_drift=total - acc, tlc_runs=m1.runs,
+               monitor_failures=bad, monitor_states=ms, conformance_traces=total, spec_drift=total - acc, tlc_runs=m1.runs, **sim,
                exhaustive=False,
                samples=[{"variant": traces[0]["var"], "watched": traces[0]["watch0"], "schedule": traces[0]["sched"][:6],
                          "trace": traces[0]["ev"][:16]}],
